@@ -482,7 +482,8 @@ func (e *env) runFaults(cc *caseCtx, o *outcome, fs []fault) {
 		case h.kind == e2e.KEntNull, h.kind == e2e.K500Body:
 			return false
 		case isNumKind(h.kind):
-			return !isMulti(h.req)
+			// since 66e6a85 also the shared body of a merged request is checked for RFC 8259 number tokens: invalid JSON
+			return true
 		case isCountKind(h.kind):
 			// a single-origin entry of a merged request takes an empty list as "no entity" (one extra is noticed)
 			return !(h.kind == e2e.KEntMissing && isMulti(h.req) && singleOriginEntry(h.req))
@@ -532,9 +533,8 @@ func (e *env) runFaults(cc *caseCtx, o *outcome, fs []fault) {
 			switch {
 			case h.kind == e2e.K500Body:
 				cs = append(cs, "status-ignored-with-data")
-			case isNumKind(h.kind) && isMulti(h.req):
-				// loader_multi_entity.go parses the shared body of a merged request itself
-				cs = append(cs, "multifetch-nan-accepted")
+			// (multifetch-nan-accepted is repaired, 66e6a85: a number kind on a merged request is an ordinary failure of it --
+			// and, like its other non-transport failures, falls under multifetch-nullable-requires-null-sent below)
 			case h.kind == e2e.KEntMissing && isMulti(h.req) && singleOriginEntry(h.req):
 				cs = append(cs, "multifetch-single-origin-count-ignored")
 			}
@@ -768,6 +768,37 @@ func (e *env) runFaults(cc *caseCtx, o *outcome, fs []fault) {
 		}
 	}
 	mayPairs = e2e.CloseOverRequires(c.Cfg, c.Uni, cc.base.Requests, mayPairs)
+	// response positions the planner fills from a failed (or skipped dependent) request although the field is a member of
+	// its representation (`al2: id` re-selected from the subgraph that also resolves the @requires field): the value was known
+	// before, so nothing flows on from it (added after the closure), but the position itself is null when the request fails
+	nMay := len(mayPairs)
+	for _, r0 := range cc.base.Requests {
+		isHit, entNull := false, false
+		for _, h := range hits {
+			isHit = isHit || (h.req.Ident() == r0.Ident() && !e2e.GroupLevel(h.kind))
+			entNull = entNull || (h.req.Ident() == r0.Ident() && h.kind == e2e.KEntNull)
+		}
+		ps, err := e2e.RepMemberSelections(c.Cfg, c.Uni, r0, func(group int, alias string, i int, _ *fedlab.J, _ *fedlab.Entity) bool {
+			if isHit {
+				return true
+			}
+			for _, id := range cc.rawOf(r0, alias) {
+				if depRaw[id] && !failedRaw[id] {
+					return true
+				}
+				if failedRaw[id] && (!entNull || (group == 0 && i == 0)) {
+					return true
+				}
+			}
+			return false
+		})
+		if err == nil {
+			mayPairs = append(mayPairs, ps...)
+		}
+	}
+	if len(mayPairs) > nMay {
+		o.Stats["runs_with_selected_representation_members_of_failed_requests"]++
+	}
 	refMay, err := e.reference(cc, mayPairs)
 	if err != nil {
 		o.Stats["reference_error"]++
